@@ -3399,6 +3399,14 @@ impl<'a, R: FileManager> FrontendCtx<'a, R> {
             f: file_name.clone(),
             s: k.span,
         };
+        if k.name_type.is_some() {
+            // { [K in Keys as NewKey]: T } renames or filters the keys: ignoring the clause would
+            // silently validate other keys than the type declares
+            return self.error(
+                &anchor,
+                DiagnosticInfoMessage::MappedTypeAsClauseNotSupported,
+            );
+        }
         let name = k.type_param.name.sym.to_string();
         let constraint = match k.type_param.constraint {
             Some(ref it) => it.as_ref(),
